@@ -249,7 +249,11 @@ class NPModel:
         it = self._it
 
         def f(*a, **k):
-            if name in NPModel._DATA_MOVING or not (has_sym(a) or has_sym(tuple(k.values()))):
+            if not (has_sym(a) or has_sym(tuple(k.values()))):
+                a = tuple(it.typed(x) for x in a)
+                k = {kk: it.typed(v) for kk, v in k.items()}
+                return it.lift(real(*a, **k))
+            if name in NPModel._DATA_MOVING:
                 return it.lift(real(*a, **k))
             raise Unsupported(f"np.{name} on symbolic values")
         f.__name__ = 'np.' + name
@@ -325,6 +329,7 @@ class Interp:
         self.sdtype = {}             # id(array) -> (array, declared dtype)
         self.tags = {}               # concrete tag value -> symbolic value
         self.tag_dtypes = ('f', 'i')
+        self.fresh_tag = None        # callable(Num) -> new tag value, set by harnesses that allow derived values
         self.encoded = {}            # qualname -> dict(file, line, sha1)
         self.stats = {'stmts': 0, 'calls': 0, 'native_calls': 0, 'lifts': 0}
         self.native_symbolic_ok = {}
@@ -599,9 +604,42 @@ class Interp:
             return self.call_func(f, list(args), kw, guard)
         return self.call_native(f, args, kw)
 
+    LOWERING = ('ListArray.from_arrays', 'LargeListArray.from_arrays', 'array', 'py_buffer', 'Array.from_buffers')
+
+    def lower(self, v):
+        """symbolic values handed to data-moving native code (pyarrow constructors) go back to concrete tags: a symbol
+        that is a registered tag gets its own tag value, any other term gets a fresh tag"""
+        if isinstance(v, np.ndarray) and v.dtype == object and any(is_sym(x) for x in v.ravel()):
+            if not hasattr(self, '_untag'):
+                self._untag = {}
+            for tag, num in self.tags.items():
+                self._untag.setdefault(id(num), tag)
+            out = np.empty(v.shape, dtype=self.dtype_of(v) if self.dtype_of(v).kind in 'fiu' else np.float64)
+            for idx in np.ndindex(v.shape):
+                x = v[idx]
+                if is_sym(x):
+                    tag = self._untag.get(id(x))
+                    if tag is None:
+                        if self.fresh_tag is None:
+                            raise Unsupported("derived symbolic value handed to native code (no tag allocator)")
+                        tag = self.fresh_tag(x)
+                        self._untag[id(x)] = tag
+                    out[idx] = tag
+                else:
+                    out[idx] = x
+            return out
+        if isinstance(v, (list, tuple)) and has_sym(v):
+            return type(v)(self.lower(x) for x in v)
+        return v
+
     def call_native(self, f, args, kw):
         self.stats['native_calls'] += 1
         if has_sym(args) or has_sym(tuple(kw.values())):
+            qn = getattr(f, '__qualname__', getattr(f, '__name__', ''))
+            if self.tags and qn in self.LOWERING:
+                args = [self.lower(a) for a in args]
+                kw = {k: self.lower(v) for k, v in kw.items()}
+                return self.lift(f(*args, **kw))
             ok = self.native_symbolic_ok.get(getattr(f, '__qualname__', getattr(f, '__name__', repr(f))))
             bound_self = getattr(f, '__self__', None)
             if bound_self is self.np or (bound_self is self) or ok or getattr(f, '_pysym_model', False) or f in (tuple, list, enumerate, zip, reversed, len, isinstance, type, id):
@@ -609,7 +647,26 @@ class Interp:
             if isinstance(bound_self, (list, dict)) or (isinstance(bound_self, np.ndarray) and bound_self.dtype == object):
                 return f(*args, **kw)
             raise Unsupported(f"native call {getattr(f, '__qualname__', f)!r} with symbolic arguments")
+        args = [self.typed(a) for a in args]
+        kw = {k: self.typed(v) for k, v in kw.items()}
         return self.lift(f(*args, **kw))
+
+    def typed(self, a):
+        """object arrays without symbolic content are handed to native code as typed arrays"""
+        if isinstance(a, np.ndarray) and a.dtype == object:
+            flat = a.ravel()
+            if len(flat) and all(isinstance(x, (bool, np.bool_)) for x in flat):
+                return a.astype(bool)
+            if all(isinstance(x, (int, float, np.integer, np.floating)) and not isinstance(x, bool) for x in flat):
+                dt = self.dtype_of(a)
+                try:
+                    return a.astype(dt if dt.kind in 'fiu' else np.float64)
+                except (TypeError, ValueError):
+                    return a
+            return a
+        if isinstance(a, list) and a and any(isinstance(x, np.ndarray) and x.dtype == object for x in a):
+            return [self.typed(x) for x in a]
+        return a
 
     def bind(self, f, args, kw):
         a = f.node.args
